@@ -60,7 +60,7 @@ func capacityHistory(r *vh.Rand) string {
 	names := []string{"x-a", "x-b", "x", "cookie", "k"}
 	nb := r.Range(8, 20)
 	if vh.Thorough {
-		nb = r.Range(15, 60)
+		nb = r.Range(15, 40)
 	}
 	for b := 0; b < nb; b++ {
 		for i := r.Range(1, 3); i > 0; i-- {
